@@ -2,6 +2,7 @@ package nc
 
 import (
 	"fmt"
+	"go/constant"
 	"go/token"
 	"go/types"
 	"strings"
@@ -87,8 +88,10 @@ type pendingFlag struct {
 
 // analysePendingFlag follows the phi web of flag. anchor is the instruction the
 // flag protects; loop is the loop around it (nil: no loop, every non-constant
-// leaf is an init value).
-func analysePendingFlag(flag *ssa.Phi, anchor ssa.Instruction, loop *Loop) pendingFlag {
+// leaf is an init value). inCase (optional): the anchor's block is shared by
+// several cases (GuardCases) and the flag may be cleared only in blocks that
+// execute in the case looked at.
+func analysePendingFlag(flag *ssa.Phi, anchor ssa.Instruction, loop *Loop, inCase func(*ssa.BasicBlock) bool) pendingFlag {
 	pf := pendingFlag{Shape: true}
 	fail := func(why string) {
 		if pf.Shape {
@@ -117,7 +120,7 @@ func analysePendingFlag(flag *ssa.Phi, anchor ssa.Instruction, loop *Loop) pendi
 				switch {
 				case IsConstBool(x, false) && inLoop:
 					pf.Clear++
-					if !(ab == pred || ab.Dominates(pred)) {
+					if !(ab == pred || ab.Dominates(pred)) || (inCase != nil && !inCase(pred)) {
 						fail("the flag is cleared on a path that has not made the clone")
 					}
 				case inLoop:
@@ -528,6 +531,129 @@ func (r *Run) c10ReserveWithinQuota(rep *ssa.Function) {
 	r.Floor("paths through those assignments", nPaths, 4)
 }
 
+// c10Copy is one way reproduce duplicates the genome of Organisms[0]: the
+// duplicate call under ONE case of the reaching condition of its block
+// (GuardCases). The pinned tree has two calls with one case each; a body shared
+// by the super-champion turn and the species-champion clone (`if super ||
+// (!done && quota > 5) { dup; if !super {done = true} else if sco > 1 {mutate};
+// wrap; if super {..; sco--} }`) is one call with two cases.
+type c10Copy struct {
+	call   ssa.CallInstruction
+	guards []Guard // all outcomes that hold in this case (resolved)
+	own    []Guard // those that no dominating edge establishes: what tells this case from its siblings
+	super  bool    // the case implies superChampOffspring >= 1
+	label  string
+	within map[*ssa.BasicBlock]bool // the blocks of the offspring loop: cases are told apart per iteration
+}
+
+// onCase: can instruction u execute in the case cp? (fails open: what cannot be excluded is on the case)
+func (cp c10Copy) onCase(u ssa.Instruction) bool {
+	return len(cp.own) == 0 || mayBeInCase(u.Block(), cp.own, cp.within)
+}
+
+// ---- C10.4: a fitness update composed on a local ----
+
+// c10ScaledFitness: is v a positively scaled image of the organism's own fitness (term `self`) on all positive
+// fitness values - so that storing it keeps the order of distinct positive values? By structure:
+//
+//	the fitness itself (a load of self)
+//	m * k, k * m, m / k     m such an image, k a positive constant or a value that does not depend on the fitness
+//	                        (an option value, the species size: what the per-store rule accepts as a factor)
+//	a join of such images; one alternative of a join may be a constant when control reaches it only under
+//	m' < c or m' <= c with c <= 0 for such an image m' - it is then not taken for a positive fitness
+//	                        (the replacement of a negative fitness)
+//
+// Everything else (sums, a product of two images, a constant on an unguarded path, a factor of zero or below, a
+// loop-carried value) is refused with a description.
+func c10ScaledFitness(ta *Termer, v ssa.Value, self string) (bool, string) {
+	var steps []string
+	seen := map[ssa.Value]bool{}
+	dependsOnSelf := func(t *Term) bool {
+		return t.Has(func(x *Term) bool { return x.String() == self })
+	}
+	var scaled func(v ssa.Value, depth int) (bool, string)
+	factor := func(k ssa.Value) (bool, string) {
+		if c, isC := k.(*ssa.Const); isC {
+			if c.Value == nil || (c.Value.Kind() != constant.Int && c.Value.Kind() != constant.Float) || constant.Sign(c.Value) <= 0 {
+				return false, "scaled by the constant " + ta.Of(k).String()
+			}
+			return true, ""
+		}
+		if kt := ta.Of(k); dependsOnSelf(kt) {
+			return false, "scaled by " + kt.String() + ", which depends on the fitness"
+		}
+		return true, ""
+	}
+	scaled = func(v ssa.Value, depth int) (bool, string) {
+		t := ta.Of(v)
+		if t.String() == self {
+			return true, ""
+		}
+		if depth > 12 || seen[v] {
+			return false, "set to " + t.String()
+		}
+		seen[v] = true
+		defer func() { seen[v] = false }()
+		switch x := v.(type) {
+		case *ssa.BinOp:
+			switch x.Op {
+			case token.MUL, token.QUO:
+				m, k := x.X, x.Y
+				if ok, _ := scaled(m, depth+1); !ok && x.Op == token.MUL {
+					m, k = x.Y, x.X
+				}
+				if ok, why := scaled(m, depth+1); !ok {
+					return false, why
+				}
+				if ok, why := factor(k); !ok {
+					return false, why
+				}
+				steps = append(steps, x.Op.String()+" "+ta.Of(k).String())
+				return true, ""
+			}
+		case *ssa.Phi:
+			for i, e := range x.Edges {
+				if c, isC := e.(*ssa.Const); isC {
+					pred := x.Block().Preds[i]
+					gs := Guards(pred)
+					if iff, isIf := pred.Instrs[len(pred.Instrs)-1].(*ssa.If); isIf && len(pred.Succs) == 2 && pred.Succs[0] != pred.Succs[1] {
+						gs = append(gs, Guard{iff.Cond, pred.Succs[0] == x.Block(), pred})
+					}
+					okC := false
+					for _, g := range resolveGuards(gs) {
+						f, isF := c10FactOf(ta, g, nil)
+						if !isF || (f.Op != token.LSS && f.Op != token.LEQ) {
+							continue
+						}
+						k, isK := f.Y.(*ssa.Const)
+						if !isK || k.Value == nil || (k.Value.Kind() != constant.Int && k.Value.Kind() != constant.Float) || constant.Sign(k.Value) > 0 {
+							continue
+						}
+						if ok, _ := scaled(f.X, depth+1); ok {
+							okC = true
+							steps = append(steps, "replaced by "+ta.Of(c).String()+" when "+f.Op.String()+" "+f.TY.String())
+						}
+					}
+					if !okC {
+						return false, "replaced by the constant " + ta.Of(c).String() + " on a path that is taken for positive fitness values too"
+					}
+					continue
+				}
+				if ok, why := scaled(e, depth+1); !ok {
+					return false, why
+				}
+			}
+			return true, ""
+		}
+		return false, "set to " + t.String()
+	}
+	ok, why := scaled(v, 0)
+	if ok {
+		why = "composed: " + strings.Join(steps, ", ")
+	}
+	return ok, why
+}
+
 // ---- comparison facts, independent of spelling ----
 
 // c10Fact is a branch outcome stated as a comparison that HOLDS, `X Op Y`
@@ -597,16 +723,16 @@ func (f c10Fact) String() string { return "(" + f.TX.String() + f.Op.String() + 
 //	    deliver nothing and make the epoch fail, which is not a silent loss);
 //	    the list carried around the loop only grows by appends, and every
 //	    list returned is that list.
-func (r *Run) c10OffspringLoop(rep *ssa.Function, tm *Termer, newOrg *ssa.Function, copies map[string]ssa.CallInstruction) {
+func (r *Run) c10OffspringLoop(rep *ssa.Function, tm *Termer, newOrg *ssa.Function, copies []c10Copy) {
 	p := r.P
 	eo := p.Field(PkgG, "Species", "ExpectedOffspring")
 	isEO := func(t *Term) bool {
 		return t != nil && t.Op == "field" && t.Obj == eo && len(t.Args) == 1 && t.Args[0].Op == "recv"
 	}
 	var anchor ssa.CallInstruction
-	for _, k := range []string{"clone", "super-champ"} {
-		if copies[k] != nil && anchor == nil {
-			anchor = copies[k]
+	for _, cp := range copies {
+		if anchor == nil {
+			anchor = cp.call
 		}
 	}
 	if anchor == nil {
@@ -744,11 +870,8 @@ func (r *Run) c10OffspringLoop(rep *ssa.Function, tm *Termer, newOrg *ssa.Functi
 		r.Check(okRet, "offspring-loop.returns-babies", p.Pos(ret.Pos()), "the list returned is the list of babies", "reproduce returns a list that is not the list the offspring were appended to ("+w+"): the copy of the champion is not handed to the caller")
 	}
 	// the copy is appended on every continuing path
-	for _, k := range []string{"clone", "super-champ"} {
-		c := copies[k]
-		if c == nil {
-			continue
-		}
+	for _, cp := range copies {
+		c, k := cp.call, cp.label
 		var genome ssa.Value
 		for _, ref := range *c.Value().Referrers() {
 			if ex, ok := ref.(*ssa.Extract); ok && ex.Index == 0 {
@@ -760,7 +883,7 @@ func (r *Run) c10OffspringLoop(rep *ssa.Function, tm *Termer, newOrg *ssa.Functi
 		}
 		calls, _ := genomeUsers(genome)
 		for _, u := range calls {
-			if u.Common().StaticCallee() != newOrg || u.Value() == nil {
+			if u.Common().StaticCallee() != newOrg || u.Value() == nil || !cp.onCase(u) {
 				continue
 			}
 			var org ssa.Value
@@ -796,7 +919,7 @@ func (r *Run) c10OffspringLoop(rep *ssa.Function, tm *Termer, newOrg *ssa.Functi
 				}
 				return false
 			}
-			path := FindPath(p, PathQuery{Fn: rep, StartAfter: u.(ssa.Instruction),
+			path := FindPath(p, PathQuery{Fn: rep, StartAfter: u.(ssa.Instruction), Assume: cp.own,
 				Target: func(in ssa.Instruction) bool {
 					if in.Block() == loop.Header {
 						return true
